@@ -112,6 +112,59 @@ pub fn leg_sqlconf(thorough: bool) -> Value {
                 calls.push(Call::SetSnapshot(ids[bi % ids.len()], (bi as u32) * 7, b.clone()));
             }
         }
+        // ---- one LONG-LIVED storage object: what a later transaction of the same object reads reflects every transaction
+        // committed before it (nothing may be remembered in the object across transactions: st.object.fresh)
+        if c.exists {
+            cases += 1;
+            let work = tempfile::Builder::new().prefix("tcss-sqlconf-").tempdir_in(dir.parent().unwrap()).unwrap();
+            for e in std::fs::read_dir(&dir).unwrap().flatten() {
+                std::fs::copy(e.path(), work.path().join(e.file_name())).unwrap();
+            }
+            let st = SqliteStorage::new(work.path()).unwrap();
+            let r = (|| -> anyhow::Result<Option<String>> {
+                let first = absfn::via_api(&st, me, &universe)?; // reads everything once through this object
+                let sv = c.snapshot.as_ref().map(|s| s.version_id).unwrap_or(c.latest);
+                {
+                    let mut t = st.txn(me)?;
+                    t.set_snapshot(Snapshot { version_id: sv, timestamp: chrono::Utc::now(), versions_since: 3 }, b"replaced".to_vec())?;
+                    t.commit()?;
+                }
+                let mut exp = set_snapshot_spec(&first, sv, 3, b"replaced");
+                let nv = Uuid::new_v4();
+                let mut uni = universe.clone();
+                uni.push(nv);
+                if !first.children.contains_key(&first.latest) {
+                    let mut t = st.txn(me)?;
+                    t.add_version(nv, first.latest, b"seg".to_vec())?;
+                    t.commit()?;
+                    exp = add_version_spec(&exp, nv, first.latest, b"seg");
+                }
+                let second = absfn::via_api(&st, me, &uni)?; // the SAME object again
+                if second != exp {
+                    return Ok(Some(format!("a storage object that has already been read from serves {:?} after set_snapshot({sv}, versions_since 3, \"replaced\") and add_version were committed through it; the contract gives {:?}", second, exp)));
+                }
+                let other_now = absfn::via_api(&st, other, &uni)?;
+                if other_now != o {
+                    return Ok(Some(format!("another client's state changed: {:?} (was {:?})", other_now, o)));
+                }
+                Ok(None)
+            })();
+            match r {
+                Ok(None) => {}
+                Ok(Some(p)) => {
+                    if violations.iter().filter(|x: &&Value| x["clause"] == json!("st.object.fresh")).count() < 2 {
+                        violations.push(json!({"tags": ["C13", "C11", "C07", "C09", "C12"], "clause": "st.object.fresh", "what": format!("SQLite backend violates st.object.fresh: {p}"),
+                            "trace": pre.iter().map(|o| format!("{o:?}")).chain(["then, through ONE SqliteStorage object: read the whole client state; set_snapshot + commit; add_version + commit; read the whole client state again".to_string()]).collect::<Vec<_>>()}));
+                    }
+                }
+                Err(e) => {
+                    if violations.iter().filter(|x: &&Value| x["clause"] == json!("st.object.fresh")).count() < 2 {
+                        violations.push(json!({"tags": ["C13", "C05"], "clause": "st.object.fresh", "what": format!("SQLite backend: a sequence of transactions within the storage preconditions through one storage object failed: {e:#}"),
+                            "trace": pre.iter().map(|o| format!("{o:?}")).collect::<Vec<_>>()}));
+                    }
+                }
+            }
+        }
         let mut getters_broken = false;
         for call in &calls {
             for commit in [true, false] {
